@@ -17,7 +17,7 @@
 EXTENDS Props, Json, IOUtils
 
 Cases == JsonDeserialize(IOEnv.CASES)
-Which == IOEnv.WHICH          \* "views" (C16) | "tables" (C06: every table entry names a successor, every successor is named - after EVERY renaming)
+Which == IOEnv.WHICH          \* "views" (C16) | "wf" (C04: the hierarchy stays self-consistent after an edit) | "tables" (C06: every table entry names a successor, every successor is named - after EVERY renaming)
 VARIABLES tid, bad
 
 RECURSIVE GrowL(_, _, _, _)
@@ -33,6 +33,7 @@ Applies(c) == LET s == [H |-> c.Hs, root |-> c.root, dup |-> <<>>] IN
                                                                   \* misses a successor (S with a member no arc of P enters) is a misuse
 Verdict(c) == IF ~Applies(c) THEN {"n/a"}
               ELSE IF Which = "tables" THEN FailedTables(c.H)
+              ELSE IF Which = "wf" THEN FailedWF([H |-> c.H, root |-> c.root, dup |-> c.dup])
               ELSE FailedViews(c.hook, [H |-> c.H, root |-> c.root, dup |-> c.dup])
 
 Init == /\ tid \in 1..Len(Cases)
